@@ -194,7 +194,7 @@ int xmp_set_row(xmp_context opaque, int row)
 	if (ctx->state < XMP_STATE_PLAYING)
 		return -XMP_ERROR_STATE;
 
-	if (pattern >= mod->pat || row >= mod->xxp[pattern]->rows)
+	if (pattern >= mod->pat || row < 0 || row >= mod->xxp[pattern]->rows)
 		return -XMP_ERROR_INVALID;
 
 	/* See set_position. */
